@@ -486,11 +486,6 @@ func (sms *sqlMetadataStore) ListMultipartUploads(ctx context.Context, tx *sql.T
 			objectEntities = objectEntities[:opts.MaxUploads]
 		}
 	} else {
-		keyCount, err := sms.objectRepository.CountUploadsByBucketNameAndPrefixAndKeyMarkerAndUploadIdMarker(ctx, tx, bucketName, prefix, keyMarker, uploadIdMarker)
-		if err != nil {
-			return nil, err
-		}
-		isTruncated = int32(*keyCount) > opts.MaxUploads
 		objectEntities, err = sms.objectRepository.FindUploadsByBucketNameAndPrefixAndKeyMarkerAndUploadIdMarkerOrderByKeyAscAndUploadIdAsc(ctx, tx, bucketName, prefix, keyMarker, uploadIdMarker)
 		if err != nil {
 			return nil, err
@@ -502,12 +497,28 @@ func (sms *sqlMetadataStore) ListMultipartUploads(ctx context.Context, tx *sql.T
 
 	for _, objectEntity := range objectEntities {
 		if delimiter != "" {
+			// With a delimiter a page holds at most MaxUploads entries, uploads
+			// and common prefixes counted together in key order; it is truncated
+			// when a further entry exists.
 			commonPrefix := determineCommonPrefix(prefix, objectEntity.Key.String(), delimiter)
 			if commonPrefix != nil {
 				if _, seen := commonPrefixSet[*commonPrefix]; !seen {
+					if int32(len(uploads)+len(commonPrefixes)) >= opts.MaxUploads {
+						isTruncated = true
+						break
+					}
 					commonPrefixSet[*commonPrefix] = struct{}{}
 					commonPrefixes = append(commonPrefixes, *commonPrefix)
 				}
+				// The upload is represented by the common prefix; advance the
+				// markers past it so the next page does not report the prefix again.
+				nextKeyMarker = objectEntity.Key.String()
+				nextUploadIdMarker = objectEntity.UploadId.String()
+				continue
+			}
+			if int32(len(uploads)+len(commonPrefixes)) >= opts.MaxUploads {
+				isTruncated = true
+				break
 			}
 		}
 		if int32(len(uploads)) < opts.MaxUploads {
